@@ -151,7 +151,11 @@ def ref_matrix(cname, kind, test_r, trial_r):
         for i, a in enumerate(te):
             for j, b in enumerate(tr):
                 SL = universe.make_SL(cname)
-                ref[i, j] = SL.bilform(b, a)
+                try:
+                    ref[i, j] = SL.bilform(b, a)
+                except Exception as ex:  # noqa: BLE001
+                    raise HarnessError('reference bilform failed on {} {} test {} trial {}: {!r}'.format(
+                        cname, kind, test_r[i], trial_r[j], ex))
         if not np.all(np.isfinite(ref)):
             raise HarnessError('reference matrix is not finite')
         return ref
@@ -416,14 +420,6 @@ def work_probe(item):
             'nchunks': info['nchunks'], 'apis': info['apis'], 'what': val if st == 'raised' else None}
 
 
-def run_schedule_case(spec, prev, call_fn):
-    """reset; optional predecessor call (its globals are what a worker forked too early would see); the call."""
-    reset_globals()
-    if prev is not None:
-        call_fn(prev)
-    return call_fn(spec)
-
-
 def work_sched_bilform(item):
     cname, kind, N, M, cpu = item['curve'], item['mesh'], item['N'], item['M'], item['cpu']
     acct = Acct()
@@ -524,7 +520,10 @@ def ref_vector(cname, kind, rects):
         out = np.zeros(len(rects))
         for j, r in enumerate(rects):
             M0, nodes = new_M0(cname, kind, 'ref')  # a fresh operator per element
-            out[j] = M0.linform(nodes[tuple(r)])[0]
+            try:
+                out[j] = M0.linform(nodes[tuple(r)])[0]
+            except Exception as ex:  # noqa: BLE001
+                raise HarnessError('reference linform failed on {} {} element {}: {!r}'.format(cname, kind, r, ex))
         if not np.all(np.isfinite(out)):
             raise HarnessError('reference vector is not finite')
         return out
@@ -532,7 +531,10 @@ def ref_vector(cname, kind, rects):
 
 
 def linform_lists(cname, kind, N, variant):
-    _, _, order = universe_of(cname, kind, 'test')
+    # leaves only: a boundary element must be an edge of one cell of the domain quadtree (precondition of linform;
+    # the length-2 sides of the L-shape span two root cells)
+    m, nodes, order = universe_of(cname, kind, 'test')
+    order = [r for r in order if nodes[r] in m.leaf_elements]
     n = len(order)
     step = next(s for s in (5, 7, 3, 11, 1) if math.gcd(s, n) == 1)
     return [list(order[(variant * 2 + k * step) % n]) for k in range(N)]
@@ -773,9 +775,6 @@ def work_probe_est(item):
 
 # =====================================================================================================
 # (c) crash points of the stored file
-POOL_ASSIGN = {'cpu': 2}
-
-
 def cache_call(fn, spec, d, use_mp=False):
     """One call of a FRESH operator object bound to cache directory d."""
     s = dict(spec)
@@ -1129,7 +1128,7 @@ PARAMS = {
                      lin_curves=('UnitSquare', 'LShape'), lin_cpus=lambda N: list(range(1, N + 1)) + [16], npoly=5,
                      est_curves=('UnitSquare', 'Circle'),
                      crash_mat=(('UnitSquare', 34, 3), ('Circle', 25, 4), ('LShape', 20, 5), ('UnitSquare', 17, 6)),
-                     crash_vec=(('UnitSquare', 6), ('LShape', 5), ('UnitSquare', 3)), hist_depth=4, selftest_pools=2000),
+                     crash_vec=(('UnitSquare', 6), ('LShape', 5), ('UnitSquare', 3)), hist_depth=4, selftest_pools=1000),
 }
 MAX_PARTITIONS = 40000
 
@@ -1196,6 +1195,10 @@ def run(ctx):
             not_enumerated.append({'case': key, 'partitions': total})
             continue
         sched_total[key] = total
+        if ctx.tier == 'quick' and pr['w'] == 'probe' and pr['cpu'] > nchunks:
+            # more workers than chunks: the schedules are those of cpu = nchunks plus idle workers; every schedule is still
+            # run, but the reruns (second list variant, determinism check) are limited to the first schedule of the case
+            base.update(twice_mod=10**9, y_mod=10**9)
         if pr.get('extra') and total > 1000:  # the large multi-item-chunk case: all schedules once, reruns on a subset
             base.update(twice_mod=16, y_mod=16)
         for lo, hi in split_ranges(total, P['batch'] * (4 if total > 1000 else 1)):
@@ -1218,6 +1221,8 @@ def run(ctx):
                               'extras': i == 0})
     cost = {'sched_bilform': lambda it: (it['hi'] - it['lo']) * (2 + it['cpu']), 'sched_linform': lambda it: (it['hi'] - it['lo']) * 12,
             'sched_est': lambda it: (it['hi'] - it['lo']) * 12, 'paths': lambda it: 900, 'crash': lambda it: 300}
+    import random
+    random.Random(ctx.seed).shuffle(items)  # VERIF_SEED only permutes the order of independent work items
     items.sort(key=lambda it: -cost[it['w']](it))
     t_ph = time.time()
     results = common.pmap(work_guard, items, ctx.jobs, chunksize=1)
@@ -1252,8 +1257,10 @@ def run(ctx):
         for k, what, rp in r['viols']:
             ctx.violation(k, what, rp)
         nonrepro += r.get('nonrepro', [])
-        if len(samples) < 12 or r['clause'] not in [s.get('clause') for s in samples]:
-            samples += r.get('samples', [])[:1]
+        for smp in r.get('samples', []):
+            kind = (smp.get('clause'), smp.get('fn'))
+            if sum(1 for x in samples if (x.get('clause'), x.get('fn')) == kind) < 2:
+                samples.append(smp)
         for k in ('forks', 'reaped', 'uncontrolled'):
             acct[k] += r.get('acct', {}).get(k, 0)
         acct['max_fd_delta'] = max(acct['max_fd_delta'], r.get('acct', {}).get('fd_delta', 0))
@@ -1349,7 +1356,7 @@ def run(ctx):
                 'variant) tuples of the schedule clause + distinct (curve, mesh, shape, path) of the path clause + distinct file faults '
                 'whose file the reader rejects or that are harmless (undetectable ones excluded) + distinct canonical cache states; '
                 'reruns for the determinism check and completion-order reruns are not counted',
-        'samples': samples[:16],
+        'samples': samples[:24],
         'exhaustive': not not_enumerated or all(x['case'][0] == 'bilform_matrix' and (x['case'][2], x['case'][3], x['case'][4]) in P['extra']
                                                 for x in not_enumerated),
         'per_clause': agg,
